@@ -4,11 +4,13 @@ from harness.gen.sessions import gen_case, SidCounter
 
 THEOREM_NOTE = ("Props/C05.lean (+ Lemmas/Shape*): under the history hypotheses WFClose / WFDrain / WFQuiet the _mainloop markers in the pending code correspond to the open "
                 "levels; push_screen_modal returns only after its level was closed, which only the close (or failed setup) of the modal entry or its replacement requests; "
-                "while it is open nothing beneath the modal entry is refreshed or drawn and the entries beneath stay in place")
+                "while it is open nothing beneath the modal entry is refreshed or drawn and the entries beneath stay in place"
+                ' After F11 NoErr is needed only for C05_levels_match_modals (C05_*_after_fix).')
 ASSUMPTIONS = ASSUME_SESSION + ["known findings K1 (second close before the innermost _mainloop regained control) and K2 (close_loop drains pending signals of the closing level: the parent is processed inside the nested loop) are excluded by the history hypotheses, evaluated by the model per case and printed as KNOWN-FINDING"]
 RULE = ("tame and app sessions with modal pushes from input, refresh, show_all, prompt, closed and from modal screens, 5..30 typed lines inside; oracle: between the call and the return "
         "of push_screen_modal every setup/refresh/show/prompt/input event happens with the stack higher than at the call, closed() never pops below it, and at the return the entries "
-        "beneath are the ones that were there; non-trivial = a push_screen_modal that returned after >= 1 typed line")
+        "beneath are the ones that were there; non-trivial = a push_screen_modal that returned after >= 1 typed line"
+        ' Later rounds: modal dialogs pushed from closed(), self-closing pumping modals, user handlers and an application exception handler; a notice that takes no input and stays while the user answers the old prompt; modal screens that close themselves and then emit a signal / ask for a redraw in the same callback; oracle additions: callbacks of a screen that is beneath a still-open modal screen (input(): judged by the loop level the screen asked in), signals enqueued while the active queue is a closed level, lost signals.')
 
 
 def generate(rnd, tier):
